@@ -5,7 +5,7 @@ CONSTANTS
   MaxItems = 2
   AssignMax = 4
   ArgVals = 1
-  TypeIds = {"X_u8_u8", "X_u32_u8", "X_bool_u16", "X_vu8_u8", "X_vi32_u16", "X_s8_u16", "X_vu8le_le", "X_x_u8", "X_us2_u16", "X_ue1_u8", "X_u8_u64"}
+  TypeIds = {"X_u8_u8", "X_u32_u8", "X_bool_u16", "X_vu8_u8", "X_vi32_u16", "X_s8_u16", "X_vu8le_le", "X_x_u8", "X_us2_u16", "X_ue1_u8", "X_u8_u64", "X_unit_u16"}
   LMults = {0, 1, 2, 4, 6}
   BigInit = FALSE
   FollowUps = FALSE
